@@ -966,6 +966,17 @@ func scripts(thorough bool) []script {
 			l.ExtraData = []byte{0xff, 0x00, 0x80, byte(i)}
 		}),
 	)
+	// a reply far larger than any sensible response budget (three stored values of 12 MiB, then small ones): every leaf is
+	// served, in its place - a front end may answer with a shorter run of consecutive entries, never with a gap
+	out = append(out, script{"three 12 MiB leaves followed by small ones", func(req *trillian.GetLeavesByRangeRequest, rsp *trillian.GetLeavesByRangeResponse) ([]stored, bool) {
+		if req.StartIndex != 0 || len(rsp.Leaves) < 5 {
+			return nil, false
+		}
+		for i := 0; i < 3; i++ {
+			rsp.Leaves[i].LeafValue = pattern(12<<20, byte(i+1))
+		}
+		return asStored(rsp.Leaves), true
+	}})
 	bad := func(name string, f func(req *trillian.GetLeavesByRangeRequest, rsp *trillian.GetLeavesByRangeResponse) bool) script {
 		return script{name, func(req *trillian.GetLeavesByRangeRequest, rsp *trillian.GetLeavesByRangeResponse) ([]stored, bool) {
 			return nil, f(req, rsp)
@@ -1069,6 +1080,9 @@ func (k *checker) hookPhase(cfg config, hw *world) {
 					continue
 				}
 				same := len(got) == len(expect)
+				if strings.HasPrefix(sc.name, "three 12 MiB") {
+					same = len(got) >= 1 && len(got) <= len(expect) // (a front end may cut an enormous answer short: a prefix is fine, a gap is not)
+				}
 				for i := 0; same && i < len(got); i++ {
 					same = bytes.Equal(got[i].leaf, expect[i].leaf) && bytes.Equal(got[i].extra, expect[i].extra)
 				}
